@@ -4,6 +4,7 @@ import (
 	"fmt"
 	"math/rand"
 	"runtime"
+	"sort"
 	"strconv"
 	"strings"
 	"sync"
@@ -100,7 +101,7 @@ var (
 	ctcpOtherOK  = []string{"ACTION", "ERRMSG", "CLIENTINFO", "USERINFO", "DCC", "FOO", "X1", "123", "A"}
 	ctcpBadCmds  = []string{"ping", "Version", "tIME", "PING!", "PI\x01NG", "", "\xc3\x89", "P-NG", "PING\t", "@", "[", "`", "/", ":", "FINGEr", "action"}
 	ctcpTexts    = []string{"", "123456", " lead", "a b c", "\x01", "x\x01y", ":colon", "\xff\xfe", "trailing ", "  ", "\xe2\x82\xac uro", "1 2", "\x01\x01", "a\rb", "q\xc3"}
-	ctcpSrcNames = []string{"nick", "Nick[x]", "N\\ick^", "irc.server.net", "a", "9bad", "", "sp ace", "\xc3\xbc", "\xff", "x-y", "?znc", "-dash", "A_{}|", "NICK", "~tilde", "n\xc3", ":c"}
+	ctcpSrcNames = []string{"nick", "Nick[x]", "N\\ick^", "irc.server.net", "a", "9bad", "", "sp ace", "\xc3\xbc", "\xff", "x-y", "?znc", "-dash", "A_{}|", "NICK", "~tilde", "n\xc3", ":c", "me", "ME", "a^b"}
 	ctcpTargets  = []string{"me", "#chan", "ME", "&c", "", "#Chan", "other"}
 )
 
@@ -244,11 +245,11 @@ const ctcpCfgVersion = "verif 1.0"
 
 // session returns the (lazily started) client of a table variant:
 // "0" default table; "1" default table, Config.Version set; "2" wildcard handler, a
-// handler for FOO, SOURCE cleared.
+// handler for FOO, SOURCE cleared; "t" the session of suite ctcp.table (table rebuilt per case).
 func ctcpSession(variant string) *ctcpSess {
 	ctcpSessMu.Lock()
 	defer ctcpSessMu.Unlock()
-	if variant != "1" && variant != "2" {
+	if variant != "1" && variant != "2" && variant != "t" {
 		variant = "0"
 	}
 	if x := ctcpSesss[variant]; x != nil {
@@ -347,13 +348,21 @@ func (x *ctcpSess) inject(e *girc.Event) (lines []string, route string, panicked
 	before := x.s.PanicCount()
 	mark := x.s.Mark()
 	base := runtime.NumGoroutine()
+	ev := e
 	if line := renderLine(e); line != "" {
 		route = "line"
-		x.s.Feed(line)
+		ev = girc.ParseEvent(line)
 	} else {
 		route = "struct"
-		x.s.C.RunHandlers(e)
+		ev = e.Copy()
 	}
+	// what readLoop does before dispatching: a PRIVMSG/NOTICE from the client itself is an
+	// echo (RunHandlers then skips the command's ordinary handlers - but not the CTCP stage)
+	if (ev.Command == "PRIVMSG" || ev.Command == "NOTICE") && ev.Source != nil && ev.Source.ID() == x.s.C.GetID() {
+		ev.Echo = true
+		route += "+echo"
+	}
+	x.s.C.RunHandlers(ev)
 	quiesce(base)
 	lines = x.flush(mark)
 	return lines, route, x.s.PanicCount() != before
@@ -394,13 +403,25 @@ func lineSafeName(n string) bool {
 // replyOracle is the reply discipline of the statement evaluated on what the client
 // wrote for e (default table).
 func replyOracle(x *ctcpSess, e *girc.Event, lines []string) string {
-	if len(lines) > 1 {
-		return fmt.Sprintf("reply-count: %d lines written for one event", len(lines))
-	}
 	if len(lines) == 0 {
 		return ""
 	}
 	l := lines[0]
+	if len(lines) > 1 {
+		// Client.Send may split one over-long answer into several lines, each repeating
+		// "NOTICE target :\x01COMMAND " (C11's subject); anything else is a second answer
+		head := l
+		if i := strings.Index(l, " :\x01"); i >= 0 {
+			if j := strings.IndexByte(l[i+3:], ' '); j >= 0 {
+				head = l[:i+3+j+1]
+			}
+		}
+		for _, o := range lines[1:] {
+			if head == l || !strings.HasPrefix(o, head) {
+				return fmt.Sprintf("reply-count: %d answers written for one event", len(lines))
+			}
+		}
+	}
 	switch {
 	case e.Command == "NOTICE":
 		return "reply-to-notice: an automatic answer to a NOTICE"
@@ -415,7 +436,7 @@ func replyOracle(x *ctcpSess, e *girc.Event, lines []string) string {
 		return "reply-to-non-ctcp: an automatic answer to a message that is not CTCP"
 	case d.cmd == "ACTION":
 		return "reply-to-action: an automatic answer to ACTION"
-	case !isKnownCTCP(d.cmd) && !specNick(specFold(e.Source.Name)):
+	case !isKnownCTCP(d.cmd) && !specNick(specFold(e.Source.Name)) && !specNick(e.Source.Name):
 		return "errmsg-to-invalid-nick: ERRMSG sent to a source that is not a nickname"
 	}
 	if !strings.HasPrefix(l, "NOTICE ") {
@@ -423,7 +444,7 @@ func replyOracle(x *ctcpSess, e *girc.Event, lines []string) string {
 	}
 	if lineSafeName(e.Source.Name) {
 		p := girc.ParseEvent(l)
-		if p == nil || p.Command != "NOTICE" || len(p.Params) != 2 || p.Params[0] != specFold(e.Source.Name) {
+		if p == nil || p.Command != "NOTICE" || len(p.Params) != 2 || specFold(p.Params[0]) != specFold(e.Source.Name) {
 			return "reply-target: the answer does not go to the requester"
 		}
 		if t := p.Params[1]; len(t) < 3 || t[0] != 1 || t[len(t)-1] != 1 {
@@ -614,4 +635,391 @@ func init() {
 			return res
 		},
 	})
+
+	Register(&Suite{
+		Name: "ctcp.send",
+		Prop: []string{"C14"},
+		Fixed: func() []Case {
+			var out []Case
+			for _, k := range []string{"Q", "R"} {
+				for _, ty := range append(append(append([]string{}, ctcpKnown...), ctcpOtherOK...), ctcpBadCmds...) {
+					for _, m := range []string{"", "x", " x", "a b", "\x01"} {
+						out = append(out, Case{k, "nick", ty, m}, Case{k, "#chan", ty, m})
+					}
+				}
+			}
+			return out
+		},
+		Gen: func(r *rand.Rand) Case {
+			ty := Pick(r, append(append(append([]string{}, ctcpKnown...), ctcpOtherOK...), ctcpBadCmds...)...)
+			if r.Intn(8) == 0 {
+				ty = RandBytes(r, r.Intn(4), "AZ az09\x01")
+			}
+			return Case{Pick(r, "Q", "R"), Pick(r, "nick", "#chan", "Nick[x]", "", "a b", ":c"), ty, Pick(r, ctcpTexts...)}
+		},
+		Run: func(c Case) Result {
+			if len(c) < 4 {
+				return Result{Obs: "?args"}
+			}
+			x := ctcpSession("0")
+			lines, panicked := sendCTCP(x, c[0], c[1], c[2], c[3])
+			if panicked {
+				res := Result{Obs: "PANIC", Sig: "panic/" + c[0]}
+				if c[2] != "" {
+					res.Oracle = "send-panic: SendCTCP panicked on a non-empty CTCP type"
+				}
+				return res
+			}
+			if len(lines) != 1 {
+				return Result{Obs: HexList(lines), Oracle: fmt.Sprintf("send-count: %d lines for one SendCTCP", len(lines)), Sig: "count"}
+			}
+			res := Result{Obs: Hex(lines[0]), Sig: "sent/" + c[0]}
+			want := "PRIVMSG "
+			if c[0] == "R" {
+				want = "NOTICE "
+			}
+			if specTagOK(c[2]) {
+				res.Sig += "/tag"
+			} else {
+				res.Sig += "/badtype"
+			}
+			switch {
+			case c[2] == "":
+				res.Oracle = "send-empty: an empty CTCP type was sent"
+			case !strings.HasPrefix(lines[0], want):
+				res.Oracle = "send-kind: a request must be a PRIVMSG and a reply a NOTICE"
+			}
+			return res
+		},
+	})
+
+	Register(&Suite{
+		Name: "ctcp.parsecmd",
+		Prop: []string{"C14"},
+		Fixed: func() []Case {
+			var out []Case
+			for b := 0; b < 256; b++ {
+				c := string([]byte{byte(b)})
+				out = append(out, Case{c}, Case{"a" + c + "9"}, Case{c + c})
+			}
+			// every rune of Unicode whose strings.ToUpper image is pure ASCII (the model knows
+			// the ASCII letters and two more), alone and inside a name
+			for r := rune(0x80); r <= 0x10ffff; r++ {
+				if r >= 0xd800 && r <= 0xdfff {
+					continue
+				}
+				if ctcpIsASCII(strings.ToUpper(string(r))) {
+					out = append(out, Case{string(r)}, Case{"x" + string(r) + "1"})
+				}
+			}
+			for _, n := range ctcpSetNames {
+				out = append(out, Case{n})
+			}
+			return out
+		},
+		Exhaustive: "all single bytes (alone, doubled, inside a name); every rune of Unicode whose upper-case image is ASCII",
+		Gen: func(r *rand.Rand) Case {
+			var sb strings.Builder
+			for i, n := 0, r.Intn(8); i < n; i++ {
+				switch r.Intn(10) {
+				case 0:
+					sb.WriteByte(byte(r.Intn(256)))
+				case 1:
+					sb.WriteRune(rune(r.Intn(0x3000)))
+				case 2:
+					sb.WriteString(Pick(r, "\xc4\xb1", "\xc5\xbf", "\xe2\x84\xaa", "\xc4\xb0", "\xc5", "\xc4", "*", " "))
+				default:
+					sb.WriteString(Pick(r, "a", "Z", "q", "0", "9", "M", "s", "i"))
+				}
+			}
+			return Case{sb.String()}
+		},
+		Run: func(c Case) Result {
+			got := girc.VerifCTCPParseCmd(c[0])
+			res := Result{Obs: Hex(got)}
+			switch {
+			case got == "":
+				res.Sig = "rejected"
+			case got == "*":
+				res.Sig = "wildcard"
+			case ctcpIsASCII(c[0]):
+				res.Sig = "tag/ascii"
+			default:
+				res.Sig = "tag/ascii-image-of-non-ascii"
+			}
+			// a key is the wildcard or a command DecodeCTCP can produce
+			if got != "" && got != "*" && !specTagOK(got) {
+				res.Oracle = "parsecmd-key: a handler key that no decoded command can equal"
+			}
+			if got == "*" && c[0] != "*" {
+				res.Oracle = "parsecmd-wildcard: a name other than * registered as the wildcard"
+			}
+			return res
+		},
+	})
+
+	Register(&Suite{
+		Name: "ctcp.table",
+		Prop: []string{"C14"},
+		Fixed: func() []Case {
+			var out []Case
+			mk := func(ops []string, ev Case) Case {
+				c := Case{strconv.Itoa(len(ops))}
+				c = append(c, ops...)
+				return append(c, ev...)
+			}
+			evs := []Case{
+				caseOfEv(true, "nick", "PRIVMSG", "me", "\x01VERSION\x01"),
+				caseOfEv(true, "nick", "PRIVMSG", "me", "\x01FOO a b\x01"),
+				caseOfEv(true, "nick", "NOTICE", "me", "\x01FOO a b\x01"),
+				caseOfEv(true, "nick", "PRIVMSG", "#chan", "\x01ACTION waves\x01"),
+				caseOfEv(false, "", "PRIVMSG", "me", "\x01SOURCE\x01"),
+				caseOfEv(true, "irc.server.net", "PRIVMSG", "me", "\x01S\x01"),
+				caseOfEv(true, "nick", "PRIVMSG", "me", "hello"),
+			}
+			opss := [][]string{
+				{}, {"S1*"}, {"B1*"}, {"S2foo"}, {"S2FOO", "S3foo"}, {"C-version"}, {"C-VERSION", "S4Version"},
+				{"S1*", "C-*"}, {"S1*", "A-"}, {"S5action"}, {"S6\xc5\xbf"}, {"S6\xc5\xbfource"}, {"C-\xc5\xbfource"},
+				{"S7"}, {"S7fo o"}, {"S8foo"}, {"S8*"}, {"B8foo", "S1*"}, {"S1**"}, {"C-"}, {"A-", "A-"},
+			}
+			for _, ops := range opss {
+				for _, ev := range evs {
+					out = append(out, mk(ops, ev))
+				}
+			}
+			return out
+		},
+		Gen: func(r *rand.Rand) Case {
+			n := r.Intn(5)
+			c := Case{strconv.Itoa(n)}
+			for i := 0; i < n; i++ {
+				name := Pick(r, ctcpSetNames...)
+				switch k := r.Intn(10); {
+				case k < 4:
+					c = append(c, "S"+strconv.Itoa(1+r.Intn(8))+name)
+				case k < 6:
+					c = append(c, "B"+strconv.Itoa(1+r.Intn(8))+name)
+				case k < 9:
+					c = append(c, "C-"+name)
+				default:
+					c = append(c, "A-")
+				}
+			}
+			ev := genCTCPEvent(r, true)
+			if r.Intn(3) == 0 && len(ev) == 5 {
+				ev[4] = "\x01" + Pick(r, "FOO", "FOO1", "I", "S", "SOURCE", "ACTION", "VERSION", "PING", "ERRMSG", "X") + Pick(r, "", " ", " a b", " |x|") + "\x01"
+			}
+			return append(c, ev...)
+		},
+		Run: func(c Case) Result {
+			if len(c) < 1 || len(c[0]) != 1 || c[0][0] < '0' || c[0][0] > '9' || len(c) < 1+int(c[0][0]-'0')+3 {
+				return Result{Obs: "?args"}
+			}
+			n := int(c[0][0] - '0')
+			x := ctcpSession("t")
+			ct := x.s.C.CTCP
+			ct.ClearAll()
+			ref := map[string]string{} // reference table: key -> handler id ("d" = default replier)
+			for _, k := range ctcpKnown {
+				ref[k] = "d"
+			}
+			for _, op := range c[1 : 1+n] {
+				if len(op) < 2 {
+					continue
+				}
+				kind, id, name := op[0], op[1], op[2:]
+				key := refParseCmd(name)
+				switch kind {
+				case 'S', 'B':
+					h := ctcpUserHandler(id, name == "*")
+					if kind == 'S' || id == '8' {
+						// id 8 writes to the requester like the library's own lines, so its line
+						// cannot be told apart afterwards: always synchronous, to keep the order fixed
+						ct.Set(name, h)
+					} else {
+						ct.SetBg(name, h)
+					}
+					if key != "" {
+						ref[key] = string(id)
+					}
+				case 'C':
+					ct.Clear(name)
+					if key != "" {
+						delete(ref, key)
+					}
+				case 'A':
+					ct.ClearAll()
+					ref = map[string]string{}
+					for _, k := range ctcpKnown {
+						ref[k] = "d"
+					}
+				}
+			}
+			keys := ct.VerifCTCPKeys()
+			e := evOfCase(c[1+n:])
+			lines, route, panicked := x.inject(e)
+			if panicked {
+				return Result{Obs: "PANIC", Oracle: "panic: a CTCP handler panicked", Sig: "panic"}
+			}
+			for i := range lines {
+				lines[i] = canonReply(lines[i])
+			}
+			// handlers registered with SetBg run in goroutines of their own: canonical order is
+			// the wildcard handler's line first
+			sort.SliceStable(lines, func(i, j int) bool { return isWildLine(lines[i]) && !isWildLine(lines[j]) })
+			res := Result{Obs: HexList(keys) + ";" + HexList(lines),
+				Sig: "ops" + c[0] + "/" + route + "/" + ctcpSig(e) + "/" + strconv.Itoa(len(lines))}
+			res.Oracle = tableOracle(ref, keys, e, lines)
+			return res
+		},
+	})
+}
+
+// sendCTCP calls Commands.SendCTCP ("Q") or SendCTCPReply ("R") on a connected client and
+// returns the line written, or panicked = true.
+func sendCTCP(x *ctcpSess, kind, target, typ, msg string) (lines []string, panicked bool) {
+	mark := x.s.Mark()
+	func() {
+		defer func() {
+			if recover() != nil {
+				panicked = true
+			}
+		}()
+		if kind == "R" {
+			x.s.C.Cmd.SendCTCPReply(target, typ, msg)
+		} else {
+			x.s.C.Cmd.SendCTCP(target, typ, msg)
+		}
+	}()
+	return x.flush(mark), panicked
+}
+
+// ---- handler registration (suites ctcp.parsecmd, ctcp.table) ----
+
+var ctcpSetNames = []string{"version", "VERSION", "Version", "ping", "PING", "finger", "source", "time", "pong", "foo", "FOO", "Foo1", "foo1",
+	"*", "**", "", "fo o", " foo", "\xc5\xbfource", "\xc5\xbf", "\xc4\xb1", "ping!", "\xff", "\xe2\x84\xaa", "action", "ACTION", "errmsg", "i", "s", "x", "foo\x01"}
+
+func ctcpIsASCII(s string) bool {
+	for i := 0; i < len(s); i++ {
+		if s[i] >= 0x80 {
+			return false
+		}
+	}
+	return true
+}
+
+// refParseCmd: the documented registration rule - "*" is the wildcard, otherwise the
+// upper-cased name if it is a CTCP tag.
+func refParseCmd(name string) string {
+	if name == "*" {
+		return "*"
+	}
+	if up := strings.ToUpper(name); specTagOK(up) {
+		return up
+	}
+	return ""
+}
+
+// ctcpUserHandler: id '8' answers like a default replier; every other id writes one NOTICE
+// to "h<id>" ("w<id>" when registered as the wildcard).
+func ctcpUserHandler(id byte, wild bool) func(*girc.Client, girc.CTCPEvent) {
+	if id == '8' {
+		return func(c *girc.Client, ev girc.CTCPEvent) {
+			if ev.Reply || ev.Source == nil {
+				return
+			}
+			c.Cmd.SendCTCPReply(ev.Source.ID(), ev.Command, "r")
+		}
+	}
+	target := "h" + string(id)
+	if wild {
+		target = "w" + string(id)
+	}
+	return func(c *girc.Client, ev girc.CTCPEvent) {
+		c.Cmd.Notice(target, ev.Command+"|"+ev.Text+"|"+B(ev.Reply))
+	}
+}
+
+func isWildLine(l string) bool {
+	return len(l) > 10 && strings.HasPrefix(l, "NOTICE w") && l[9] == ' ' && l[8] >= '0' && l[8] <= '9'
+}
+
+func isUserLine(l string) (id string, ok bool) {
+	if len(l) > 10 && strings.HasPrefix(l, "NOTICE h") && l[9] == ' ' && l[8] >= '0' && l[8] <= '9' {
+		return l[8:9], true
+	}
+	return "", false
+}
+
+// tableOracle: what registering handlers promises, evaluated on the lines the client wrote.
+func tableOracle(ref map[string]string, keys []string, e *girc.Event, lines []string) string {
+	want := make([]string, 0, len(ref))
+	for k := range ref {
+		want = append(want, k)
+	}
+	sort.Strings(want)
+	if strings.Join(want, "\x00") != strings.Join(keys, "\x00") {
+		return fmt.Sprintf("table-keys: handler table %q, registrations say %q", keys, want)
+	}
+	d := specDecode(e)
+	if d == nil {
+		if len(lines) != 0 {
+			return "table-non-ctcp: a handler ran for a message that is not CTCP"
+		}
+		return ""
+	}
+	nWild, nUser, rest := 0, map[string]int{}, []string{}
+	for _, l := range lines {
+		if isWildLine(l) {
+			nWild++
+		} else if id, ok := isUserLine(l); ok {
+			nUser[id]++
+		} else {
+			rest = append(rest, l)
+		}
+	}
+	wid, hasWild := ref["*"]
+	switch {
+	case hasWild && wid != "8" && nWild != 1:
+		return fmt.Sprintf("table-wildcard: the wildcard handler ran %d times for one CTCP event", nWild)
+	case (!hasWild || wid == "8") && nWild != 0:
+		return "table-wildcard: a wildcard line without wildcard handler"
+	}
+	hid, has := ref[d.cmd]
+	if has && hid != "d" && hid != "8" {
+		if nUser[hid] != 1 || len(nUser) != 1 {
+			return fmt.Sprintf("table-handler: handler %s of %s ran %v", hid, d.cmd, nUser)
+		}
+	} else if len(nUser) != 0 {
+		return fmt.Sprintf("table-handler: unregistered handler ran %v", nUser)
+	}
+	// what is left was written by repliers (default, id 8) or is the library's ERRMSG
+	nRepliers := 0
+	if has && (hid == "d" || hid == "8") {
+		nRepliers++
+	}
+	if hasWild && wid == "8" {
+		nRepliers++
+	}
+	errmsg := 0
+	for _, l := range rest {
+		if strings.Contains(l, "\x01ERRMSG that is an unknown CTCP query\x01") {
+			errmsg++
+		}
+	}
+	if errmsg > 0 && (has || d.reply || d.cmd == "ACTION" || e.Source == nil || (!specNick(specFold(e.Source.Name)) && !specNick(e.Source.Name))) {
+		return "table-errmsg: ERRMSG although a handler exists, or to a reply, ACTION or unattributable request"
+	}
+	if errmsg > 1 || len(rest)-errmsg > nRepliers {
+		return fmt.Sprintf("table-count: %d lines beyond the registered handlers' own", len(rest))
+	}
+	if (d.reply || e.Source == nil) && len(rest) != 0 {
+		return "table-reply: a replier answered a reply or an unattributable request"
+	}
+	for _, l := range rest {
+		if !strings.HasPrefix(l, "NOTICE ") {
+			return "table-not-notice: an answer that is not a NOTICE"
+		}
+	}
+	return ""
 }
